@@ -18,6 +18,7 @@ package p18
 
 import (
 	"bytes"
+	"context"
 	"crypto/sha256"
 	"encoding/base64"
 	"encoding/binary"
@@ -33,10 +34,13 @@ import (
 	"time"
 
 	"github.com/zenon-network/go-zenon/chain/nom"
+	"github.com/zenon-network/go-zenon/common"
 	"github.com/zenon-network/go-zenon/common/crypto"
 	"github.com/zenon-network/go-zenon/common/db"
 	"github.com/zenon-network/go-zenon/common/types"
 	"github.com/zenon-network/go-zenon/rpc/api/embedded"
+	"github.com/zenon-network/go-zenon/rpc/api/subscribe"
+	rpcserver "github.com/zenon-network/go-zenon/rpc/server"
 	"github.com/zenon-network/go-zenon/vm/constants"
 	"github.com/zenon-network/go-zenon/vm/embedded/definition"
 	"github.com/zenon-network/go-zenon/vm/embedded/implementation"
@@ -85,6 +89,10 @@ func PointView(t *testing.T, variant int) *View {
 					pointErr[variant] = fmt.Errorf("the world lacks %v", miss)
 					fmt.Fprintf(os.Stderr, "C18: point world %d, attempt %d lacks %v\n", variant, attempt, miss)
 					truthCache.Delete(v)
+					func() {
+						defer func() { _ = recover() }()
+						v.N.Destroy()
+					}()
 					return
 				}
 				pointViews[variant] = v
@@ -717,6 +725,8 @@ func buildPoint(c *pbt.C, variant int) (*View, error) {
 	if err := produce(1); err != nil {
 		return nil, err
 	}
+	submit(u(2), types.HtlcContract, types.ZnnTokenStandard, zero, definition.ABIHtlc.PackMethodPanic(definition.DenyHtlcProxyUnlockMethodName), "htlc.DenyProxyUnlock (stays)")
+	submit(sim.ExtraKey(1).Address, types.HtlcContract, types.ZnnTokenStandard, zero, definition.ABIHtlc.PackMethodPanic(definition.DenyHtlcProxyUnlockMethodName), "htlc.DenyProxyUnlock (stays)")
 	// hash time locks that stay: user and contract beneficiaries, both hash types, ZNN / QSR / a custom token
 	{
 		now := h.A.Frontier().Timestamp.Unix()
@@ -3109,6 +3119,452 @@ func TestC18Point(t *testing.T) {
 		for i := 0; i < calls; i++ {
 			m := methods[e.weighted("method", weights...)]
 			m.run(e, truth)
+		}
+	})
+}
+
+// ---- subscriptions ------------------------------------------------------------------------------------------------------
+//
+// TestC18Subscribe: the four subscriptions of rpc/api/subscribe (momentums, allAccountBlocks, accountBlocksByAddress,
+// unreceivedAccountBlocksByAddress), taken over the in-process client of rpc/server, deliver exactly what the chain
+// inserts afterwards: every momentum once and in order of height, and for every momentum that holds matching account
+// blocks one notification with exactly those blocks (descendants of contract blocks included).
+//
+// How the asynchronous service is driven soundly: a subscription is installed by the service's worker some time after
+// ledger.subscribe has answered, so the claim starts with the first notification a subscription delivers (warm-up
+// momentums, each with a block that matches all four filters, are produced until every subscription has delivered
+// one; waiting for that is synchronisation only). From there on nothing may be missing: a final momentum that
+// matches all four filters is produced and each stream is read until that momentum's notification arrives; a lost,
+// duplicated or reordered notification shows in the sequence read up to there, not in a timeout (the only wall-clock
+// guard is against a stream that stops altogether). Fewer than 100 momentums are produced per case, the capacity of
+// the service's queues, so that the documented overflow behaviour (events are dropped when a queue is full) cannot occur.
+
+type subWorld struct {
+	h   *sim.Hist
+	srv *rpcserver.Server
+}
+
+var (
+	subWorldOnce sync.Once
+	theSubWorld  *subWorld
+	subWorldWhy  string
+)
+
+// getSubWorld builds the world of the subscription check: a chain that keeps growing, with the process-wide
+// subscription service bound to it (possible only if no other long-lived world of this process has claimed it).
+func getSubWorld(t *testing.T) *subWorld {
+	subWorldOnce.Do(func() {
+		out, journal := os.Getenv("VERIF_OUT"), os.Getenv("VERIF_JOURNAL")
+		os.Unsetenv("VERIF_OUT")
+		os.Unsetenv("VERIF_JOURNAL")
+		defer func() {
+			if out != "" {
+				os.Setenv("VERIF_OUT", out)
+			}
+			if journal != "" {
+				os.Setenv("VERIF_JOURNAL", journal)
+			}
+		}()
+		pbt.CheckOnce(t, "C18", func(c *pbt.C) { buildSubWorld(c) })
+	})
+	return theSubWorld
+}
+
+func buildSubWorld(c *pbt.C) {
+	{
+		c.Src = &detSrc{s: 18500}
+		spec := sim.DefaultSpec(2, 4)
+		spec.ActiveSporks = 2
+		h := newHistNoCleanup(c, spec, worldOpts())
+		bound := false
+		subOnce.Do(func() {
+			srv := subscribe.GetSubscribeServer(h.A.Chain)
+			common.DealWithErr(srv.Init())
+			common.DealWithErr(srv.Start())
+			bound = true
+		})
+		if !bound {
+			subWorldWhy = "the process-wide subscription service is already bound to the chain of another world of this process"
+			h.W.Close()
+			return
+		}
+		for _, in := range sim.DefaultIntents() {
+			switch in.Name {
+			case "token-issue", "token-mint", "token-burn", "plasma-fuse", "plasma-cancel", "stake", "stake-cancel", "pillar-delegate", "donate", "htlc-create", "htlc-unlock", "htlc-reclaim", "collect-reward", "deposit-qsr", "withdraw-qsr":
+				h.Intents = append(h.Intents, in)
+			}
+		}
+		for i := 0; i < 3; i++ {
+			h.Produce(0)
+		}
+		s := rpcserver.NewServer()
+		if err := s.RegisterName("ledger", subscribe.GetSubscribeApi()); err != nil {
+			subWorldWhy = err.Error()
+			return
+		}
+		theSubWorld = &subWorld{h: h, srv: s}
+	}
+}
+
+type subStream struct {
+	name string
+	ch   chan json.RawMessage
+	sub  *rpcserver.ClientSubscription
+	got  []json.RawMessage
+}
+
+// take moves what has arrived so far into got (never blocks).
+func (s *subStream) take() {
+	for {
+		select {
+		case raw := <-s.ch:
+			s.got = append(s.got, raw)
+		default:
+			return
+		}
+	}
+}
+
+type subBlock struct {
+	BlockType uint64        `json:"blockType"`
+	Hash      types.Hash    `json:"hash"`
+	Height    uint64        `json:"height"`
+	Address   types.Address `json:"address"`
+	ToAddress types.Address `json:"toAddress"`
+	FromHash  types.Hash    `json:"fromHash"`
+}
+
+func flatten(b *nom.AccountBlock, out []*nom.AccountBlock) []*nom.AccountBlock {
+	out = append(out, b)
+	for _, d := range b.DescendantBlocks {
+		out = flatten(d, out)
+	}
+	return out
+}
+
+const subStall = 60 * time.Second
+
+// keySubDuplicate: InsertMomentum (rpc/api/subscribe/api.go) converts every block of the momentum's content with
+// newAccountBlock, which also walks the block's DescendantBlocks; the descendants (the sends a contract generates
+// while receiving) are listed in the content themselves, so each of them is notified twice.
+const keySubDuplicate = "C18/subscribe/descendant-notified-twice"
+
+func TestC18Subscribe(t *testing.T) {
+	w := getSubWorld(t)
+	if w == nil {
+		t.Skipf("C18 subscribe: %s", subWorldWhy)
+	}
+	pbt.Check(t, "C18", func(c *pbt.C) {
+		h := w.h
+		h.C = c
+		if h.Dead {
+			c.Failf("C18/subscribe/world-dead", "the producer of the subscription world has stopped: %v", h.A.Preflight)
+		}
+		users := h.Users
+		a := users[c.Pick("sub.a", len(h.W.Spec.Users))] // a funded user
+		b := users[c.Pick("sub.b", len(users))]
+		switch c.Weighted("sub.bkind", 4, 1, 1) {
+		case 1:
+			b = types.PlasmaContract
+			c.Class("unreceived-filter-on-a-contract")
+		case 2:
+			b = a
+			c.Class("both-filters-on-one-address")
+		}
+		client := rpcserver.DialInProc(w.srv)
+		defer client.Close()
+		ctx, cancel := context.WithCancel(context.Background())
+		defer cancel()
+		streams := []*subStream{{name: "momentums"}, {name: "allAccountBlocks"}, {name: "accountBlocksByAddress"}, {name: "unreceivedAccountBlocksByAddress"}}
+		for i, s := range streams {
+			s.ch = make(chan json.RawMessage, 4096)
+			args := []interface{}{s.name}
+			if i == 2 {
+				args = append(args, a)
+			}
+			if i == 3 {
+				args = append(args, b)
+			}
+			sub, err := client.Subscribe(ctx, "ledger", s.ch, args...)
+			if err != nil {
+				c.Failf("C18/subscribe/refused", "ledger.subscribe %v failed: %v", args, err)
+			}
+			s.sub = sub
+			defer sub.Unsubscribe()
+		}
+		// a block that matches every filter: a send of a to b
+		marker := func(tag string) *nom.AccountBlock {
+			var data []byte
+			if !types.IsEmbeddedAddress(b) {
+				data = []byte(tag)
+			} else {
+				data = definition.ABIPlasma.PackMethodPanic(definition.FuseMethodName, a)
+			}
+			amt, z := big.NewInt(1), types.ZnnTokenStandard
+			if types.IsEmbeddedAddress(b) {
+				amt, z = big.NewInt(10*sim.Zexp), types.QsrTokenStandard
+			}
+			blk, err := h.Submit(&nom.AccountBlock{Address: a, ToAddress: b, TokenStandard: z, Amount: amt, Data: data}, "marker "+tag)
+			if err != nil {
+				return nil
+			}
+			return blk
+		}
+		// warm-up (synchronisation, not part of the claim)
+		warm := 0
+		for {
+			if marker(fmt.Sprintf("warm-up %d", warm)) == nil || !h.Produce(0) {
+				c.Note("the marker block was refused or the producer stopped: nothing to observe")
+				return
+			}
+			warm++
+			all := false
+			for wait := 0; wait < 100 && !all; wait++ {
+				all = true
+				for _, s := range streams {
+					s.take()
+					all = all && len(s.got) > 0
+				}
+				if !all {
+					time.Sleep(5 * time.Millisecond)
+				}
+			}
+			if all {
+				break
+			}
+			if warm >= 8 {
+				for _, s := range streams {
+					if len(s.got) == 0 {
+						c.Failf("C18/subscribe/never-delivers", "subscription %s has not delivered anything although %d momentums with a matching block were inserted after ledger.subscribe answered", s.name, warm)
+					}
+				}
+			}
+		}
+		if warm > 1 {
+			c.Class("subscription-installed-late")
+		}
+		// the observed life of the chain
+		n := c.Int("sub.momentums", 1, 24)
+		for m := 0; m < n && !h.Dead; m++ {
+			for k := c.Int("sub.actions", 0, 4); k > 0; k-- {
+				switch c.Weighted("sub.act", 3, 2, 2, 2, 1) {
+				case 0:
+					h.ActTransfer()
+				case 1:
+					h.ActReceive()
+				case 2:
+					h.ActIntent()
+				case 3:
+					marker(fmt.Sprintf("m%d", m))
+				default:
+					_, _ = h.Submit(&nom.AccountBlock{Address: users[c.Pick("sub.from", len(h.W.Spec.Users))], ToAddress: b, TokenStandard: types.ZnnTokenStandard, Amount: big.NewInt(2)}, "send of somebody else to b")
+				}
+			}
+			if !h.Produce(c.Weighted("sub.skip", 6, 1, 1)) {
+				return
+			}
+		}
+		var last *nom.AccountBlock
+		for tries := 0; tries < 3 && last == nil; tries++ {
+			last = marker("flush")
+		}
+		if last == nil || !h.Produce(0) {
+			c.Note("the final marker block was refused: nothing to conclude")
+			return
+		}
+		flush := h.A.Height()
+		// read every stream up to the notification of the final momentum
+		guard := time.NewTimer(subStall)
+		defer guard.Stop()
+		reached := func(s *subStream, i int) bool {
+			for _, raw := range s.got {
+				if i == 0 {
+					var ms []subscribe.Momentum
+					if json.Unmarshal(raw, &ms) == nil {
+						for _, m := range ms {
+							if m.Height >= flush {
+								return true
+							}
+						}
+					}
+					continue
+				}
+				var bs []subBlock
+				if json.Unmarshal(raw, &bs) == nil {
+					for _, x := range bs {
+						if x.Hash == last.Hash {
+							return true
+						}
+					}
+				}
+			}
+			return false
+		}
+		for i, s := range streams {
+			s.take()
+			for !reached(s, i) {
+				select {
+				case raw := <-s.ch:
+					s.got = append(s.got, raw)
+				case err := <-s.sub.Err():
+					c.Failf("C18/subscribe/closed", "subscription %s was closed by the server: %v", s.name, err)
+				case <-guard.C:
+					c.Failf("C18/subscribe/stalled", "subscription %s: the notification of momentum %d has not arrived %v after its insertion (%d notifications received)", s.name, flush, subStall, len(s.got))
+				}
+			}
+		}
+		// ground truth from the store
+		store := h.A.Chain.GetFrontierMomentumStore()
+		type perMomentum struct {
+			m      *nom.Momentum
+			blocks []*nom.AccountBlock
+		}
+		byHeight := map[uint64]*perMomentum{}
+		confirmedIn := map[types.Hash]uint64{}
+		descendantIn, parentOf, dupNote := map[types.Hash]bool{}, map[types.Hash]types.Hash{}, ""
+		first := flush
+		for ht := flush; ht > 0 && ht+uint64(n+warm+4) > flush; ht-- {
+			m, err := store.GetMomentumByHeight(ht)
+			if err != nil || m == nil {
+				c.Failf("C18/scan-error", "momentum %d: %v", ht, err)
+			}
+			pm := &perMomentum{m: m}
+			for _, hdr := range m.Content {
+				blk, err := store.GetAccountBlock(*hdr)
+				if err != nil || blk == nil {
+					c.Failf("C18/scan-error", "block %v of momentum %d: %v", hdr.Hash, ht, err)
+				}
+				pm.blocks = flatten(blk, pm.blocks)
+			}
+			for _, x := range pm.blocks {
+				confirmedIn[x.Hash] = ht
+				for _, d := range x.DescendantBlocks {
+					descendantIn[d.Hash] = true
+					parentOf[d.Hash] = x.Hash
+				}
+			}
+			byHeight[ht] = pm
+			first = ht
+		}
+		matches := func(i int, x *nom.AccountBlock) bool {
+			switch i {
+			case 1:
+				return true
+			case 2:
+				return x.Address == a
+			default:
+				return x.IsSendBlock() && x.ToAddress == b
+			}
+		}
+		busy := 0
+		for i, s := range streams {
+			if i == 0 {
+				var heights []uint64
+				for _, raw := range s.got {
+					var ms []subscribe.Momentum
+					if err := json.Unmarshal(raw, &ms); err != nil || len(ms) != 1 {
+						c.Failf("C18/subscribe/momentums", "notification %s is not a list of one momentum (%v)", clip(raw), err)
+					}
+					pm := byHeight[ms[0].Height]
+					if pm == nil || pm.m.Hash != ms[0].Hash {
+						c.Failf("C18/subscribe/momentums", "notification %s: the chain holds no such momentum (heights %d..%d were inserted)", clip(raw), first, flush)
+					}
+					heights = append(heights, ms[0].Height)
+				}
+				for j, ht := range heights {
+					if ht != heights[0]+uint64(j) {
+						c.Failf("C18/subscribe/momentums", "momentums were notified as heights %v: after the first one (%d) every inserted momentum up to %d is due exactly once and in order", heights, heights[0], flush)
+					}
+				}
+				if heights[len(heights)-1] != flush {
+					c.Failf("C18/subscribe/momentums", "momentums were notified as heights %v, the last inserted one is %d", heights, flush)
+				}
+				continue
+			}
+			// block streams: one notification per momentum with matching blocks, from the first notified momentum on
+			var gotHeights []uint64
+			for _, raw := range s.got {
+				var bs []subBlock
+				if err := json.Unmarshal(raw, &bs); err != nil || len(bs) == 0 {
+					c.Failf("C18/subscribe/"+s.name, "notification %s is not a non-empty list of blocks (%v)", clip(raw), err)
+				}
+				ht, ok := confirmedIn[bs[0].Hash]
+				if !ok {
+					c.Failf("C18/subscribe/"+s.name, "notified block %v is in none of the momentums %d..%d", bs[0].Hash, first, flush)
+				}
+				gotHeights = append(gotHeights, ht)
+				var want []*nom.AccountBlock
+				wantSet := map[types.Hash]*nom.AccountBlock{}
+				for _, x := range byHeight[ht].blocks {
+					if matches(i, x) && wantSet[x.Hash] == nil {
+						want = append(want, x)
+						wantSet[x.Hash] = x
+					}
+				}
+				seen := map[types.Hash]int{}
+				lastHeight := map[types.Address]uint64{}
+				for _, x := range bs {
+					blk := wantSet[x.Hash]
+					if blk == nil {
+						c.Failf("C18/subscribe/"+s.name, "momentum %d: notified block %v (%v/%d to %v) is not one of the %d blocks of that momentum the subscription is about", ht, x.Hash, x.Address, x.Height, x.ToAddress, len(want))
+					}
+					if x.BlockType != blk.BlockType || x.Height != blk.Height || x.Address != blk.Address || x.ToAddress != blk.ToAddress || x.FromHash != blk.FromBlockHash {
+						c.Failf("C18/subscribe/"+s.name, "momentum %d: notified %+v, the ledger block is type %d %v/%d to %v from %v", ht, x, blk.BlockType, blk.Address, blk.Height, blk.ToAddress, blk.FromBlockHash)
+					}
+					seen[x.Hash]++
+					if seen[x.Hash] > 1 {
+						// FINDING (see keySubDuplicate): a block generated by a contract (a descendant of the contract's
+						// receive block) is listed in the momentum's content AND attached to its parent; the service
+						// walks both and notifies it twice. Exactly that is tolerated: the second copy of a descendant.
+						if seen[x.Hash] == 2 && descendantIn[x.Hash] {
+							dupNote = fmt.Sprintf("subscription %s, momentum %d: block %v (%v/%d, generated by the contract while it received %v) is notified twice in one notification", s.name, ht, x.Hash, x.Address, x.Height, parentOf[x.Hash])
+							continue
+						}
+						c.Failf("C18/subscribe/"+s.name, "momentum %d: block %v notified %d times", ht, x.Hash, seen[x.Hash])
+					}
+					if x.Height <= lastHeight[x.Address] {
+						c.Failf("C18/subscribe/"+s.name, "momentum %d: blocks of %v notified out of chain order (height %d after %d)", ht, x.Address, x.Height, lastHeight[x.Address])
+					}
+					lastHeight[x.Address] = x.Height
+				}
+				if len(seen) != len(want) {
+					c.Failf("C18/subscribe/"+s.name, "momentum %d: %d different blocks notified, the momentum holds %d the subscription is about", ht, len(seen), len(want))
+				}
+				if len(want) > 1 {
+					busy++
+				}
+				for _, x := range want {
+					if len(x.DescendantBlocks) > 0 {
+						c.Class("notified-contract-block-with-descendants")
+					}
+				}
+			}
+			var wantHeights []uint64
+			for ht := gotHeights[0]; ht <= flush; ht++ {
+				for _, x := range byHeight[ht].blocks {
+					if matches(i, x) {
+						wantHeights = append(wantHeights, ht)
+						break
+					}
+				}
+			}
+			if fmt.Sprint(gotHeights) != fmt.Sprint(wantHeights) {
+				c.Failf("C18/subscribe/"+s.name, "notifications arrived for momentums %v; from the first one on, the momentums that hold blocks the subscription is about are %v", gotHeights, wantHeights)
+			}
+		}
+		if dupNote != "" {
+			// a genuine defect of rpc/api/subscribe, reported; asserted only once it is registered as a known finding
+			c.Class("finding: contract-generated block notified twice (asserted only as a known finding)")
+			if c.Known(keySubDuplicate) {
+				c.Failf(keySubDuplicate, "%s", dupNote)
+			}
+		}
+		c.Note("a=%v b=%v: %d warm-up + %d momentums, heights %d..%d; notifications: %d / %d / %d / %d", a, b, warm, n, first, flush, len(streams[0].got), len(streams[1].got), len(streams[2].got), len(streams[3].got))
+		if n >= 3 && busy > 0 {
+			c.NonTrivial()
+		}
+		if len(streams[2].got) > 2 && len(streams[3].got) > 2 {
+			c.Class("address-filters-matched-in-several-momentums")
 		}
 	})
 }
